@@ -278,6 +278,12 @@ class SubsModel:
             hit = self._pc[id(obj)] = (obj, ckey(obj))
         return hit[1]
 
+    def _sdigest(self, msg):
+        hit = self._pc.get(("digest", id(msg)))
+        if hit is None or hit[0] is not msg:
+            hit = self._pc[("digest", id(msg))] = (msg, R._digest(msg))
+        return hit[1]
+
     def _rkey(self, rec):
         return ("d", ("application_id", rec["application_id"]), ("dataObject", self._okey(rec["dataObject"])),
                 ("location", self._okey(rec["location"])), ("timeValidity", rec["timeValidity"]), ("timestamp", rec["timestamp"]))
@@ -411,7 +417,8 @@ class SubsModel:
                   tuple((s.key, s.app, s.live, s.impl_id if s.live else 0,
                          min(R.clock(now) - s.since, cap) if s.last is None else None,
                          None if s.last is None else min(R.clock(now) - s.last, cap)) for s in rs.subs),
-                  len(rs.store))
+                  # content of the stored objects (messages with equal headers may differ below, e.g. camA / camB)
+                  tuple(sorted(self._sdigest(rec["dataObject"]) for _t, rec in rs.store)))
         return (real, frac, rcanon, tuple(w.sub_ids), w.n_adds)
 
     def outcome(self, w, obs):
